@@ -395,7 +395,7 @@ func visitInstr(fr *frame, instr ssa.Instruction) continuation {
 
 // notePreempt marks stores inside the configured functions as preemption points.
 func (ex *exec) notePreempt(fr *frame, instr ssa.Instruction) {
-	if ex.cfg.Interleave && ex.preempt > 0 && ex.preemptFns != nil && ex.preemptFns[fr.fn.String()] {
+	if ex.cfg.Interleave && ex.preempt > 0 && ex.preemptFns != nil && ex.isPreemptFn(fr.fn.String()) {
 		ex.preemptPoint()
 	}
 }
